@@ -97,7 +97,9 @@ func mkL22[
 		where := fmt.Sprintf("lindell22/%s %s ids=%s(%s) keygen=%s api=%s", c.name, s.e.Name, a.Name, idsString(a.IDs), kg, apiNames[api])
 		shards, err := getShards(s, a, kg)
 		if err != nil {
-			x.Failf("lindell22/keygen/"+kg.String(), "%s: key generation failed: %v", where, err)
+			if !outside(x0, err, where) {
+				x.Failf("lindell22/keygen/"+kg.String(), "%s: key generation failed: %s", where, errStr(err))
+			}
 			return
 		}
 		seed := engine.Seed()
